@@ -8,7 +8,7 @@ import numpy as np
 from .. import core
 from ..core import SKIP
 
-OPS = {"trackviews", "binned", "maploc", "gjaccard", "locsort", "fromtrack", "seqviews", "files", "sgeometry", "ctor", "xgenome", "hugegenome", "globalise", "maskfield"}
+OPS = {"trackviews", "binned", "maploc", "gjaccard", "locsort", "fromtrack", "seqviews", "files", "sgeometry", "ctor", "xgenome", "hugegenome", "globalise", "maskfield", "binnedseq"}
 MODEL_OPS = {"globalise", "trackviews", "binned", "maploc", "gjaccard", "locsort", "fromtrack"}
 
 
@@ -63,6 +63,23 @@ def call(c):
                 bg.count(LocationEntry([names[x[0]] for x in part], np.array([x[1] for x in part], dtype=m._coord_dtype(c))))
         d = bg.count_dict
         return {"dict": [m._ints(d[n]) for n in incl], "get": [m._ints(bg[n]) for n in incl]}
+    if op == "binnedseq":
+        # ONE counter object, several batches; a batch with a position outside its chromosome must be refused AS A WHOLE
+        # (nothing of it counted, on any chromosome), and the object keeps working afterwards
+        from bionumpy.genomic_data.binned_genome import BinnedGenome
+        ctx = m._genome(c).get_genome_context()
+        bg = BinnedGenome(ctx, c["bin"])
+        raised, after = [], []
+        for part in c["batches"]:
+            ent = LocationEntry([names[x[0]] for x in part], np.array([x[1] for x in part], dtype=m._coord_dtype(c)))
+            try:
+                bg.count(ent)
+                raised.append(False)
+            except (ValueError, IndexError, AssertionError):
+                raised.append(True)
+            d = bg.count_dict
+            after.append([m._ints(d[n]) for n in incl])
+        return {"raised": raised, "after": after, "get": [m._ints(bg[n]) for n in incl]}
     if op == "maploc":
         G = m._genome(c)
         gi = G.get_intervals(m._mk_intervals(c, False))
@@ -94,7 +111,7 @@ def call(c):
         loc = GenomicLocation.from_fields(ctx, [names[x[0]] for x in c["pts"]], np.array([x[1] for x in c["pts"]], dtype=m._coord_dtype(c)))
         s = loc.sorted()
         rev = loc[::-1]
-        f = lambda l: [[idx[n], p] for n, p in zip(m._names_of(l.chromosome), m._ints(l.position))]
+        f = lambda l: [[idx.get(n, "?" + str(n)), p] for n, p in zip(m._names_of(l.chromosome), m._ints(l.position))]
         return {"sorted": f(s), "rev": f(rev)}
     if op == "fromtrack":
         from bionumpy.genomic_data.genomic_intervals import GenomicIntervals
@@ -320,6 +337,8 @@ def _files(c):
             for n, s in zip(names, c["seqs"]):
                 fh.write(f">{n}\n{s}\n")
     G = bnp.Genome.from_file(gf, sort_names=bool(c.get("sort", False)))      # default filter: '_' names ignored
+    for added in c.get("gderive") or []:
+        G = G.with_ignored_added(list(added))         # the tutorial idiom: tolerate chrM / chrEBV ... in the data
     out = {"order": [n for n in G.get_genome_context().chrom_sizes], "gsize": int(G.size)}
     bed = os.path.join(d, key + ".bed")
     with open(bed, "w") as fh:
@@ -331,7 +350,7 @@ def _files(c):
     out["pileup"] = [m._ints(dd[n]) for n in order]
     ext = gi.extended_to_size(c["L"])
     oidx = {n: i for i, n in enumerate(order)}
-    out["ext"] = [[oidx[n], s, e] for n, s, e in zip(m._names_of(ext.chromosome), m._ints(ext.start), m._ints(ext.stop))]
+    out["ext"] = [[oidx.get(n, "?" + str(n)), s, e] for n, s, e in zip(m._names_of(ext.chromosome), m._ints(ext.start), m._ints(ext.stop))]
     bgf = os.path.join(d, key + ".bdg")
     with open(bgf, "w") as fh:
         rows = [(n, v) for n, v in zip(names, c["vals"]) if "_" not in n]
@@ -355,10 +374,10 @@ def _files(c):
             n = names[x[0]]
             fh.write(f"{n[3:] if numeric else n}\t{x[1] + 1}\t.\tA\tC\t.\t.\t.\n")
     loc = G.read_locations(vcf, has_numeric_chromosomes=numeric)
-    out["loc"] = [[oidx[n], p] for n, p in zip(m._names_of(loc.chromosome), m._ints(loc.position))]
+    out["loc"] = [[oidx.get(n, "?" + str(n)), p] for n, p in zip(m._names_of(loc.chromosome), m._ints(loc.position))]
     if pts:
         w = loc.get_windows(flank=1)
-        out["win"] = [[oidx[n], s, e] for n, s, e in zip(m._names_of(w.chromosome), m._ints(w.start), m._ints(w.stop))]
+        out["win"] = [[oidx.get(n, "?" + str(n)), s, e] for n, s, e in zip(m._names_of(w.chromosome), m._ints(w.start), m._ints(w.stop))]
     if c["genome_from"] == "sizes" and not numeric and not c.get("sort"):
         from bionumpy.genomic_data.binned_genome import BinnedGenome
         bg = BinnedGenome.from_file(gf, bin_size=c["bin"])
@@ -405,6 +424,19 @@ def oracle(c):
         b = c["bin"]
         d = [[sum(1 for x in pts if x[0] == i and x[1] // b == k) for k in range((sizes[i] + b - 1) // b)] for i in incl]
         return {"dict": d, "get": d}
+    if op == "binnedseq":
+        allp = [x for part in c["batches"] for x in part]
+        if any(sizes[i] == 0 for i in incl) or any(rank[x[0]] is None or x[1] < 0 for x in allp) or any(not part for part in c["batches"]):
+            return SKIP
+        b = c["bin"]
+        counted, raised, after = [], [], []
+        for part in c["batches"]:
+            ok = all(x[1] < sizes[x[0]] for x in part)
+            raised.append(not ok)
+            if ok:
+                counted += part
+            after.append([[sum(1 for x in counted if x[0] == i and x[1] // b == k) for k in range((sizes[i] + b - 1) // b)] for i in incl])
+        return {"raised": raised, "after": after, "get": after[-1]}
     if op == "maploc":
         if not valid or not pts_known:
             return SKIP
@@ -791,6 +823,16 @@ def cases(tier, rng):
         yield dict(base, op="maskfield", pts=[[rng.choice(allc), rng.randrange(6), rng.choice(allc)] for _ in range(rng.choice([1, 3, 5]))])
         c0 = rng.choice(incl)
         yield dict(base, op="binned", pts=pts + [[c0, sizes[c0] + rng.choice([0, 1, 3])]], bin=rng.choice([1, 2, 3]), split=len(pts) + 1)
+        # a sequence of batches on ONE counter: valid ones and ones holding a position beyond a chromosome end (on the
+        # first, a middle or the last chromosome with entries, anywhere in the batch) next to valid entries everywhere
+        batches = []
+        for _b in range(rng.choice([2, 3, 4])):
+            part = [[c_, rng.randrange(sizes[c_])] for c_ in incl for _r in range(rng.choice([0, 1, 2]))] or [[c0, 0]]
+            if rng.random() < 0.5:
+                cb = rng.choice(incl)
+                part.insert(rng.randint(0, len(part)), [cb, sizes[cb] + rng.choice([0, 1, 3])])
+            batches.append(part)
+        yield dict(base, op="binnedseq", batches=batches, bin=rng.choice([1, 2, 3, 4]))
         yield dict(base, op="maploc", iv=sorted(iv, key=lambda x: rng.random()), pts=spts)
         every = sorted([c, p] for c in incl for p in range(sizes[c]))
         yield dict(base, op="maploc", iv=iv, pts=every)
